@@ -18,4 +18,4 @@ Separate Extraction
   ExprModel.numlist_entry_int ExprModel.chanlist_entry
   NumDecode.strtod_bits NumDecode.strtof_bits
   Generated.gen_err_desc Generated.gen_err_fallback Generated.gen_units Generated.gen_desc_max
-  Glue.desc_of Glue.descz Glue.eq_push_ex Glue.eq_init Glue.eq_count Glue.eq_systerr Glue.hq_init Glue.hq_push_ex Glue.hq_count Glue.hq_systerr Glue.numlist_entry_tok.
+  Glue.desc_of Glue.descz Glue.eq_push_ex Glue.eq_init Glue.eq_count Glue.eq_systerr Glue.hq_init Glue.hq_push_ex Glue.hq_count Glue.hq_systerr Glue.numlist_entry_tok Glue.numlist_entry_double.
